@@ -16,7 +16,8 @@
 EXTENDS Integers, TLC
 
 CONSTANTS ItemFirst,
-          LocAfterValue   \* TRUE = the code: itemLoc.write publishes the location after header, key AND value are on the file
+          LocAfterValue,  \* TRUE = the code: itemLoc.write publishes the location after header, key AND value are on the file
+          CasFailReturnsInstalled \* FALSE = the code: a reader whose casItem fails starts over; TRUE = it returns what the other reader installed (seeded C06-f)
 
 VARIABLES loc,      \* 0: not persisted, 1: persisted (location known)
           item,     \* "none" | "key" (cached without value) | "full"
@@ -26,58 +27,90 @@ VARIABLES loc,      \* 0: not persisted, 1: persisted (location known)
           size,     \* what NumBytes computed: "item" | "loc" | "zero"
           file,     \* what of the item record is on the file: "none" | "hdr" (header + key) | "full"
           fpc,      \* flusher inside itemLoc.write: "idle" | "hdr" | "val" | "loc" | "done"
-          garbage   \* some load read bytes that were not written yet
+          garbage,  \* some load read bytes that were not written yet
+          rpc,      \* the stepwise reader itemLoc.read(withValue = TRUE): "idle" | "reading" | "cas" | "done"
+          seen,     \* the item pointer it loaded before going to the file
+          got       \* what it handed to its caller
 
-vars == <<loc, item, mpc, r1, copy, size, file, fpc, garbage>>
+vars == <<loc, item, mpc, r1, copy, size, file, fpc, garbage, rpc, seen, got>>
+rvars == <<rpc, seen, got>>
 
 Init == /\ loc = 0 /\ item = "full"          \* a freshly set, unpersisted item
         /\ mpc = "idle" /\ r1 = <<>> /\ copy = <<>> /\ size = "none"
         /\ file = "none" /\ fpc = "idle" /\ garbage = FALSE
+        /\ rpc = "idle" /\ seen = "none" /\ got = "none"
 
 \* flusher: itemLoc.write (only unpersisted items that are in memory) is two
 \* WriteAt calls - header + key, then the value - and setLoc; no lock is held
 \* across them, other goroutines run in between
 FHdr == /\ fpc = "idle" /\ loc = 0 /\ item # "none" /\ file' = "hdr" /\ fpc' = "hdr"
-        /\ UNCHANGED <<loc, item, mpc, r1, copy, size, garbage>>
+        /\ UNCHANGED <<loc, item, mpc, r1, copy, size, garbage, rvars>>
 FVal == /\ fpc = (IF LocAfterValue THEN "hdr" ELSE "loc") /\ file' = "full"
         /\ fpc' = (IF LocAfterValue THEN "val" ELSE "done")
-        /\ UNCHANGED <<loc, item, mpc, r1, copy, size, garbage>>
+        /\ UNCHANGED <<loc, item, mpc, r1, copy, size, garbage, rvars>>
 FLoc == /\ fpc = (IF LocAfterValue THEN "val" ELSE "hdr") /\ loc' = 1
         /\ fpc' = (IF LocAfterValue THEN "done" ELSE "loc")
-        /\ UNCHANGED <<item, mpc, r1, copy, size, file, garbage>>
+        /\ UNCHANGED <<item, mpc, r1, copy, size, file, garbage, rvars>>
 Persist == FHdr \/ FVal \/ FLoc
 
 \* a visit (or EvictSomeItems): node.Evict drops a persisted item
 Evict == /\ loc = 1 /\ item # "none" /\ item' = "none"
-         /\ UNCHANGED <<loc, mpc, r1, copy, size, file, fpc, garbage>>
+         /\ UNCHANGED <<loc, mpc, r1, copy, size, file, fpc, garbage, rvars>>
 
 \* itemLoc.read(withValue = false): loads header + key when nothing is cached
 LoadKeyOnly == /\ item = "none" /\ loc = 1 /\ item' = "key"
                /\ garbage' = (garbage \/ file = "none")
-               /\ UNCHANGED <<loc, mpc, r1, copy, size, file, fpc>>
+               /\ UNCHANGED <<loc, mpc, r1, copy, size, file, fpc, rvars>>
 \* itemLoc.read(withValue = true): loads the value when it is missing
 LoadWithValue == /\ item \in {"none", "key"} /\ loc = 1 /\ item' = "full"
                  /\ garbage' = (garbage \/ file # "full")
-                 /\ UNCHANGED <<loc, mpc, r1, copy, size, file, fpc>>
+                 /\ UNCHANGED <<loc, mpc, r1, copy, size, file, fpc, rvars>>
 
 \* mutator: itemLoc.Copy(src) = two field reads
 Copy1 == /\ mpc = "idle" /\ copy = <<>> /\ mpc' = "copy1"
          /\ r1' = IF ItemFirst THEN <<item>> ELSE <<loc>>
-         /\ UNCHANGED <<loc, item, copy, size, file, fpc, garbage>>
+         /\ UNCHANGED <<loc, item, copy, size, file, fpc, garbage, rvars>>
 Copy2 == /\ mpc = "copy1" /\ mpc' = "copied"
          /\ copy' = IF ItemFirst THEN <<loc, r1[1]>> ELSE <<r1[1], item>>
-         /\ UNCHANGED <<loc, item, r1, size, file, fpc, garbage>>
+         /\ UNCHANGED <<loc, item, r1, size, file, fpc, garbage, rvars>>
 \* mutator: itemLoc.NumBytes = two field reads
 Size1 == /\ mpc = "copied" /\ mpc' = "size1"
          /\ r1' = IF ItemFirst THEN <<item>> ELSE <<loc>>
-         /\ UNCHANGED <<loc, item, copy, size, file, fpc, garbage>>
+         /\ UNCHANGED <<loc, item, copy, size, file, fpc, garbage, rvars>>
 Size2 == /\ mpc = "size1" /\ mpc' = "sized"
          /\ LET l == IF ItemFirst THEN loc ELSE r1[1]
                 i == IF ItemFirst THEN r1[1] ELSE item
             IN size' = IF l = 1 THEN "loc" ELSE IF i # "none" THEN "item" ELSE "zero"
-         /\ UNCHANGED <<loc, item, r1, copy, file, fpc, garbage>>
+         /\ UNCHANGED <<loc, item, r1, copy, file, fpc, garbage, rvars>>
 
-Next == Persist \/ Evict \/ LoadKeyOnly \/ LoadWithValue \/ Copy1 \/ Copy2 \/ Size1 \/ Size2
+(* A reader asking for the value, step by step (item.go itemLoc.read): it    *)
+(* loads the item pointer; when the value is missing it reads header, key   *)
+(* and value from the file WITHOUT a lock (other readers evict and re-load  *)
+(* meanwhile: Evict, LoadKeyOnly, LoadWithValue above are those readers)    *)
+(* and installs the result with a compare-and-swap against the pointer it   *)
+(* saw; when that fails it starts over.                                     *)
+nonr == <<loc, item, mpc, r1, copy, size, file, fpc>>
+RBegin == /\ rpc = "idle" /\ (item # "none" \/ loc = 1)
+          /\ seen' = item
+          /\ IF item = "full" THEN rpc' = "done" /\ got' = "full"
+                              ELSE rpc' = (IF loc = 1 THEN "reading" ELSE "idle") /\ got' = got
+          /\ UNCHANGED <<nonr, garbage>>
+RRead == /\ rpc = "reading" /\ rpc' = "cas"
+         /\ garbage' = (garbage \/ file # "full")
+         /\ UNCHANGED <<nonr, seen, got>>
+RCas == /\ rpc = "cas"
+        /\ IF item = seen
+           THEN item' = "full" /\ rpc' = "done" /\ got' = "full"
+           ELSE IF CasFailReturnsInstalled
+                THEN item' = item /\ rpc' = "done" /\ got' = item
+                ELSE item' = item /\ rpc' = "idle" /\ got' = got     \* read() again
+        /\ UNCHANGED <<loc, mpc, r1, copy, size, file, fpc, garbage, seen>>
+\* the caller is done with it; the reader can be used again
+RReset == /\ rpc = "done" /\ rpc' = "idle" /\ got' = "none" /\ seen' = "none"
+          /\ UNCHANGED <<nonr, garbage>>
+Reader == RBegin \/ RRead \/ RCas \/ RReset
+
+Next == Persist \/ Evict \/ LoadKeyOnly \/ LoadWithValue \/ Copy1 \/ Copy2 \/ Size1 \/ Size2 \/ Reader
 Spec == Init /\ [][Next]_vars
 
 \* the copy always knows the item: in memory, or where it is on file (F12)
@@ -89,4 +122,7 @@ NeverLost == loc = 1 \/ item # "none"
 \* whatever is loaded from the file was completely written before (a reader
 \* that evicts the item and loads it again must find header, key and value)
 LoadsSeeWrittenBytes == ~garbage
+\* C05 / C06: a read that asked for the value hands out an item WITH its value,
+\* whatever the other readers evicted or re-installed meanwhile
+ValueReadGetsValue == rpc = "done" => got = "full"
 =============================================================================
